@@ -13,13 +13,19 @@ Definition vars_empty : varstore := mkVars [] [] (repeat TSng 26).
 Definition type_of_letter (types : list vtype) (c : N) : option vtype :=
   if is_upper c then nth_error types (N.to_nat (c - 65)) else None.
 
+Fixpoint after_last_dot (s : str) (acc : str) : str :=
+  match s with
+  | [] => acc
+  | c :: r => if (c =? 46)%N then after_last_dot r r else after_last_dot r acc
+  end.
+
 (* the type a key is stored at: suffix of the key, else DEFtype of its first letter *)
 Definition key_type (types : list vtype) (k : str) : option vtype :=
   if ends_with_chr k 33 then Some TSng
   else if ends_with_chr k 35 then Some TDbl
   else if ends_with_chr k 37 then Some TInt
   else if ends_with_chr k 36 then Some TStr
-  else match k with
+  else match after_last_dot k k with      (* a function parameter "FNX.P" is typed by its own name P *)
        | c :: _ => type_of_letter types c
        | [] => None
        end.
